@@ -1218,6 +1218,9 @@ def make_pred(spec):
         return lambda m: False
     if spec[0] == 'has':
         return lambda m: hasattr(m, spec[1])
+    if spec[0] == 'truthy':
+        # a predicate that hands back the attribute itself (None, '', 0, 0.0, b'' and a zero enum member are "no")
+        return lambda m: getattr(m, spec[1], None)
     if spec[0] == 'lt':
         bound = _D(int(spec[2])) / 1000000
 
